@@ -62,9 +62,10 @@ class ShapeBuilder:
         self.n += 1
         return self._reg(A.Sym("int", f"NON_NEG_INTEGER:{tag}{self.n}"))
 
-    def decimal(self, tag="f"):
+    def decimal(self, tag="f", overflow=False):
+        """overflow: a decimal with more digits than a float holds (float() of it is inf); at most one per program."""
         self.n += 1
-        return self._reg(A.Sym("float", f"NON_NEG_FLOAT:{tag}{self.n}"))
+        return self._reg(A.Sym("float", f"NON_NEG_FLOAT{':OVERFLOW' if overflow else ''}:{tag}{self.n}"))
 
 
 # terms: ('lit', Sym, neg) | ('id', Sym) | ('tuple', [terms])
@@ -152,10 +153,17 @@ def prog_tokens(p: Prog) -> list:
 
 
 # ------------------------------------------------------------------ reference semantics (B)
+OVERFLOW_UID = -1      # the (single) overflowing decimal of a program: its value, inf, cannot carry a uid
+
+
+def ref_uid(s):
+    return OVERFLOW_UID if getattr(s, "overflow", False) else s.uid
+
+
 def ref_term(t):
     if t[0] == "lit":
         s = t[1]
-        return ("const", s.kind, s.uid, bool(t[2]))
+        return ("const", s.kind, ref_uid(s), bool(t[2]))
     if t[0] == "id":
         return ("name", t[1].name)
     return ("tuple", tuple(ref_term(m) for m in t[1]))
@@ -226,7 +234,7 @@ def flatten_pred(p):
 def ref_body(b):
     if b[0] == "groups":
         return [("return_choice", tuple(ref_term(l) for l, _ in b[1]),
-                 tuple(("weight", w.uid) for _, w in b[1]))]
+                 tuple(("weight", ref_uid(w)) for _, w in b[1]))]
     _, p, then, els = b
     return [("if", ref_pred(p), tuple(ref_body(then)), tuple(ref_else(els)))]
 
@@ -443,6 +451,15 @@ def placeholder(sym: A.Sym, render: str) -> str:
     if "|repr-inner" in render:
         base = render.replace("|repr-inner", "")
         return repr(placeholder(sym, base))[1:-1]
+    if getattr(sym, "overflow", False) and (render.startswith("format:") or render in ("str", "repr", "ascii", "json")):
+        v = sym.as_inf()
+        if render == "json":
+            import json
+            return json.dumps(v)
+        try:
+            return format(v, render.split(":", 1)[1]) if render.startswith("format:") else repr(v)
+        except Exception:  # noqa: BLE001
+            return repr(v)
     if render.startswith("format:"):
         spec = render.split(":", 1)[1]
         try:
@@ -476,6 +493,8 @@ def sym_of_constant(v):
         return ("str", int(v[1:-1]), False)
     if isinstance(v, bool):
         return None
+    if isinstance(v, float) and v in (float("inf"), float("-inf")):
+        return ("float", OVERFLOW_UID, v < 0)
     if isinstance(v, int) and abs(v) > PLACE_INT:
         return ("int", abs(v) - PLACE_INT, v < 0)
     if isinstance(v, float) and abs(v) > PLACE_INT:
@@ -810,8 +829,9 @@ class Family:
     """Systematic enumeration of program shapes (every recursive position of the generator and
     every production of the grammar is exercised; thorough adds depth)."""
 
-    def __init__(self, tier="quick"):
+    def __init__(self, tier="quick", options=()):
         self.tier = tier
+        self.options = set(options)
         self.b = ShapeBuilder()
         self._gid = 0
 
@@ -843,6 +863,26 @@ class Family:
         yield from self.conditional_variants()
         yield from self.predicate_variants()
         yield from self.sharing_variants()
+        if "overflow" in self.options:
+            yield from self.overflow_variants()
+
+    def overflow_variants(self):
+        """A decimal literal with more digits than a float can hold (the lexer's float() gives inf), in every
+        position a number can be written."""
+        b = self.b
+        big = lambda: ("lit", b.decimal("big", overflow=True), False)      # noqa: E731
+        x = lambda: ("id", b.ident("x_num"))                                 # noqa: E731
+        yield self.prog(("if", [("cmp", "KW_GT", x(), big())], self.groups(1), ("else", self.groups(1))), True, ("a",),
+                        "overflowing decimal as right operand")
+        yield self.prog(("if", [("cmp", "KW_LT", ("lit", b.decimal("big", overflow=True), True), x())], self.groups(1), None), True, ("a",),
+                        "negative overflowing decimal as left operand")
+        yield self.prog(("if", [("cmp", "KW_IN", x(), ("tuple", [("lit", b.integer(), False), big()]))], self.groups(1), None), True, ("a",),
+                        "overflowing decimal as tuple member")
+        yield self.prog(("groups", [(big(), b.integer("w")), (("lit", b.string("g"), False), b.integer("w"))]), True, ("a",),
+                        "overflowing decimal as returned group")
+        yield self.prog(("groups", [(("lit", b.string("g"), False), b.decimal("big", overflow=True)),
+                                    (("lit", b.string("g"), False), b.integer("w"))]), True, ("a",),
+                        "overflowing decimal as weight")
 
     def header_variants(self):
         for salt in (True, False):
